@@ -244,15 +244,6 @@ def run(ck):
             ok = ok and len(store) == 1 and mid in u(store[0].value) and unconditional_in(nd, outer[0].body, store[0])
     ck.ob('DT-same-moltype', nm.loc(nd), ok, 'a molecule takes the name of the first representative it shares its type with, otherwise a new name (decision = share_moltype_with only)',
           key='DT-same-moltype|naming')
-    # ---- the atom order both writers use: atom id, ties in node order
-    snf = mol.func('Molecule.sorted_nodes')
-    body = [s for s in snf.body if not (isinstance(s, ast.Expr) and isinstance(s.value, ast.Constant))]
-    ok = len(body) == 1 and isinstance(body[0], ast.Expr) and isinstance(body[0].value, ast.YieldFrom) and isinstance(body[0].value.value, ast.Call) \
-        and call_name(body[0].value.value) == 'sorted' and u(body[0].value.value.args[0]) == 'self.nodes'
-    if ok:
-        lam = kwarg(body[0].value.value, 'key')
-        ok = isinstance(lam, ast.Lambda) and u(lam.body) == "self.nodes[{}].get('atomid', np.inf)".format(lam.args.args[0].arg) and kwarg(body[0].value.value, 'reverse') is None
-    ck.ob('SIB-atom-order', mol.loc(snf), ok, 'sorted_nodes orders every node by its atom id (missing id last; id 0 is an id), ties in node order', key='SIB-atom-order|sorted_nodes')
     # ---- atoms are not reordered, after molecule types were assigned, by an attribute the type comparison ignores
     cli = idx.mod('bin/martinize2')
     ent = cli.func('entry')
